@@ -32,6 +32,8 @@ package main
 //      reset nor stay in while it is set
 //   i  (added, c13y.go) the SGR round trip of c at column/row indices around and beyond the legacy
 //      single-byte limit (222 … 65534): no clamp or narrowing on the way to the decimal report
+//   j  (added, c13z.go) the motion gate for EVERY constant of vaxis.MouseButton: drags with any button that
+//      can be held are reported (and round-trip under 1006) under 1002 / 1003 alone; no motion under 1000 alone
 
 import (
 	"fmt"
